@@ -25,7 +25,7 @@ TRUSTED = ['TLC', 'SphereLattice.tla', 'GeodSym.tla', 'GeodOverloads.tla', 'drv_
 
 
 def run(ctx):
-    geod_common.run(ctx, 'C02', ['inv'], [('il', 12000, 400000), ('ix', 6000, 100000)])
+    geod_common.run(ctx, 'C02', ['inv'], [('il', 12000, 400000), ('ix', 6000, 100000), ('iy', 15000, 120000)])
     return ctx.finish(RULE, TRUSTED)
 
 
